@@ -18,6 +18,7 @@ import (
 	slashingtypes "github.com/cosmos/cosmos-sdk/x/slashing/types"
 	stakingtypes "github.com/cosmos/cosmos-sdk/x/staking/types"
 	"github.com/ethereum/go-ethereum/common"
+	"github.com/ethereum/go-ethereum/crypto"
 	"github.com/ethereum/go-ethereum/common/hexutil"
 	"github.com/evmos/evmos/v16/crypto/ethsecp256k1"
 	evmostypes "github.com/evmos/evmos/v16/types"
@@ -104,6 +105,9 @@ type Config struct {
 	// ProposerAny lets the stub pick any member of the validator set as proposer, including
 	// one the application can no longer resolve (known finding K1); otherwise it is avoided
 	ProposerAny bool `json:"proposer_any,omitempty"`
+	// GatewayContract makes the configured gateway a forwarder CONTRACT (deployed by user 2 with
+	// its first transaction) instead of an externally owned account
+	GatewayContract bool `json:"gateway_contract,omitempty"`
 	// FeederSwap lets the first two price feeders serve each other's token (feeder id != token id)
 	FeederSwap bool `json:"feeder_swap,omitempty"`
 	// HugeAmounts allows amounts of 2^128..2^255 (trigger-allowed runs for the known integer-overflow findings)
@@ -128,6 +132,7 @@ type Operator struct {
 type World struct {
 	Cfg      Config
 	Gateway  Account
+	GatewayContract common.Address // address the forwarder gets when user 2 deploys it with nonce 0
 	Ops      []*Operator
 	Stakers  [][]byte // 20-byte client chain addresses
 	Natives  []Account
@@ -166,6 +171,7 @@ const ConsKeyPool = 6
 func NewWorld(cfg Config) *World {
 	w := &World{Cfg: cfg}
 	w.Gateway = mkAccount(cfg.Seed, "gateway", 0)
+	w.GatewayContract = crypto.CreateAddress(mkAccount(cfg.Seed, "user", 2).Eth, 0)
 	for i := 0; i < cfg.NOps; i++ {
 		op := &Operator{Account: mkAccount(cfg.Seed, "op", i), Idx: i}
 		for k := 0; k < ConsKeyPool; k++ {
@@ -193,6 +199,14 @@ func NewWorld(cfg Config) *World {
 	// fixed, seed-independent genesis time: 2024-01-01T00:00:00Z
 	w.GenesisTime = time.Unix(1704067200, 0).UTC()
 	return w
+}
+
+// GatewayAddrHex is the configured gateway address (EOA or forwarder contract).
+func (w *World) GatewayAddrHex() string {
+	if w.Cfg.GatewayContract {
+		return w.GatewayContract.Hex()
+	}
+	return w.Gateway.Eth.Hex()
 }
 
 // StakerID of the i-th extra staker on a chain.
@@ -380,7 +394,7 @@ func (w *World) BuildGenesis(app *exocoreapp.ExocoreApp) (map[string]json.RawMes
 		})
 	}
 	assetsGen := assetstypes.NewGenesis(
-		assetstypes.NewParams(w.Gateway.Eth.Hex(), assetstypes.DefaultExocoreLzAppEventTopic),
+		assetstypes.NewParams(w.GatewayAddrHex(), assetstypes.DefaultExocoreLzAppEventTopic),
 		chains, tokens, deposits, opAssets,
 	)
 	gs[assetstypes.ModuleName] = cdc.MustMarshalJSON(assetsGen)
